@@ -14,7 +14,8 @@ import teneva
 LEVEL = "exploration"
 RULE = ("Hypothesis draws tall matrices of full column rank BY CONSTRUCTION: r generic rows (Gaussian, or an integer matrix of "
         "determinant 1) plus n-r further rows that are generic / exactly zero / exact copies, negated copies or doubles of other "
-        "rows, a drawn row permutation, and either the raw matrix (families gauss, int = small integers with many ties) or "
+        "rows, a drawn row permutation, and either the raw matrix (families gauss; int = small integers with many ties; lu = L U with "
+        "a unit lower trapezoidal L, 0.3/0.9 <= |l_ij| < 1, for which the LU start of maxvol is poor and 1-8 row swaps happen) or "
         "orth(G) diag(10^-linspace(0,c,r)) V^T x 10^s with c in 0..8 (prescribed 2-norm condition number 10^c; the exact zero / "
         "duplicate rows are re-imposed afterwards). Aspect ratios from n = r+1 (r 1..6, n-r 1..12; thorough r..8, n..40). "
         "maxvol: e in {1.01,1.05,1.1,2} or a float in [1.01,4], a chain of iteration limits k1<k2<..<10^5 on the same matrix "
@@ -401,8 +402,8 @@ def prop_dispatch(case, ctx):
 
 
 SUBCHECKS = [
-    Sub("maxvol", prop_maxvol, strategy=maxvol_cases, quick=250, thorough=4000),
-    Sub("maxvol_rect", prop_rect, strategy=rect_cases, quick=400, thorough=6000),
-    Sub("rejections", prop_reject, strategy=reject_cases, quick=80, thorough=600),
-    Sub("dispatch", prop_dispatch, strategy=dispatch_cases, quick=150, thorough=2000),
+    Sub("maxvol", prop_maxvol, strategy=maxvol_cases, quick=600, thorough=4000),
+    Sub("maxvol_rect", prop_rect, strategy=rect_cases, quick=800, thorough=6000),
+    Sub("rejections", prop_reject, strategy=reject_cases, quick=100, thorough=600),
+    Sub("dispatch", prop_dispatch, strategy=dispatch_cases, quick=300, thorough=2000),
 ]
